@@ -215,9 +215,9 @@ def impl_obs(step):
 
 
 # -- LazyRegex ---------------------------------------------------------------------------------------------------------
-LAZY_PATTERNS = [('f.o', 0), ('(a)(b)?', re.I), ('^(?:x|y{2})$', re.I | re.ASCII), ('(?P<n>\\d+)', 0), ('(', 0),
+LAZY_PATTERNS = [('f.o', 0), ('f.o', re.I), ('(a)(b)?', re.I), ('^(?:x|y{2})$', re.I | re.ASCII), ('(?P<n>\\d+)', 0), ('(', 0),
                  ('[', re.I), ('a*', re.S | re.M)]
-LAZY_TEXTS = ['foo', 'xfoo', 'AB', 'ab', 'yy', 'X', '12 34', '', 'aaa']
+LAZY_TEXTS = ['foo', 'FOO', 'xfoo', 'AB', 'ab', 'yy', 'X', '12 34', '', 'aaa']
 LAZY_METHODS = ['match', 'search', 'findall', 'split', 'sub', 'call', 'subn', 'finditer']
 
 
